@@ -450,7 +450,9 @@ def run(ctx):
                 "non-trivial = tree with at least one operator and more than one element / history with a query and a "
                 "composition / lemma instance with more than one residue; distinct by hash of the abstract case")
     ctx.assumptions = ["TLC's evaluation of the TLA+ set operators", "Python big-integer arithmetic for min/max of "
-                       "64-bit repetition counts", "divisors > LemmaD and counts > 3d+1 rely on the lemma's definitional step"]
+                       "64-bit repetition counts", "divisors > LemmaD and counts > 3d+1 rely on the lemma's definitional step",
+                       "Apalache / z3 for the arithmetic lemmas over unbounded integers (EquivK congruent to k and below 2d; rounding up is idempotent, "
+                       "monotone within one alignment step and commutes with adding multiples of the alignment)"]
     # --- trees
     res = tlc.run("BitLengthSets", cfg["tree"], dump=True, tag="c01tree", timeout=3000)
     ctx.add_tlc(res, cfg["tree"])
@@ -484,6 +486,9 @@ def run(ctx):
         ctx.sample({"lemma_transport": "repeat(K) %% d and repeat_range(K) %% d for K in %s... against the TLC table at "
                     "EquivK(K,d); %d calls" % ([str(k) for k in BIG_K[:3]], n)})
     tlc.cleanup(res)
+    # --- the arithmetic behind the reductions for ALL naturals (Apalache, SMT over unbounded integers)
+    from .. import apalache
+    apalache.check(ctx, "ArithLemmas", ["EquivKLemma", "PadIdem"] if ctx.tier == "quick" else ["EquivKLemma", "PadIdem", "PadShift"])
     # --- call records with 64-bit counts
     run_records(ctx, cfg["records"])
 
